@@ -705,6 +705,13 @@ where
 
 	// if self sending, make sure to store 'initiator' keys
 	let context_res = w.get_private_context(keychain_mask, slate.id.as_bytes());
+	// the invoicer's context of a self-sent invoice holds no inputs; one that does is our own
+	// from an earlier call for this invoice: don't do this multiple times
+	if let Ok(ref c) = context_res {
+		if !c.input_ids.is_empty() {
+			return Err(Error::TransactionAlreadyReceived(ret_slate.id.to_string()));
+		}
+	}
 
 	let mut context = tx::add_inputs_to_slate(
 		&mut *w,
